@@ -1502,6 +1502,25 @@ pub fn step<const N: usize, P: Pad>(
                     sig(op, N, lay, &format!("unexpected_panic@{}", short_loc(loc))),
                     format!("{:?} panicked: {} at {}; case={}", op, msg, loc, ctx.cur_case),
                 );
+                // a panic instead of the documented result also refutes the property that
+                // specifies that result
+                let also = match op {
+                    Op::PushBack | Op::PushFront | Op::TryPushBack | Op::TryPushFront => "C02",
+                    Op::Drain(_, _, End::Drop) => "C09",
+                    Op::Drain(_, _, End::Forget) => "C10",
+                    Op::CloneFrom(_) | Op::CloneBuf | Op::ToVec => "C12",
+                    Op::HashSelf | Op::EqSelf | Op::CmpSelf | Op::DebugFmt(_) => "C13",
+                    _ if !op.is_mutator() => "C07",
+                    _ => "C01",
+                };
+                ctx.violation(
+                    also,
+                    sig(op, N, lay, &format!("panicked_instead_of_result@{}", short_loc(loc))),
+                    format!("{:?} panicked: {} at {}; case={}", op, msg, loc, ctx.cur_case),
+                );
+                if also != "C01" && op.is_mutator() {
+                    ctx.violation("C01", sig(op, N, lay, &format!("panicked_instead_of_result@{}", short_loc(loc))), format!("{:?} panicked: {} at {}", op, msg, loc));
+                }
                 // contents are whatever is there now
                 *model = post.pairs();
                 out.resynced = true;
@@ -1591,6 +1610,16 @@ pub fn step<const N: usize, P: Pad>(
             }
             // per-op extras
             judge_extras::<N, P>(op, env, &before, pre, &post, ctx, lay);
+            if matches!(op, Op::MakeContiguous(_) | Op::Write(MutView::MakeContiguous, _, _)) {
+                let (s1, s2) = h.buf_ref().as_slices();
+                if !s2.is_empty() || s1.len() != post.ids.len() {
+                    ctx.violation(
+                        "C07",
+                        sig(op, N, lay, "two_slices_after_make_contiguous"),
+                        format!("{:?}: as_slices() reports {} + {} elements afterwards; case={}", op, s1.len(), s2.len(), ctx.cur_case),
+                    );
+                }
+            }
             // allocations
             if mon.allocs && !P::HEAP {
                 let c = env.counts;
